@@ -284,12 +284,60 @@ Proof.
     unfold height in Hh. rewrite E in A2. lia. }
   assert (HdV : p_first P + V + 4 < U64).
   { specialize (Hd k Hk). rewrite (up_dview P HP s k Hr Hk Hu), Hv in Hd. exact Hd. }
-  destruct (commit_two_rounds P HP pay fetch He V n j mv Hjv Hmv Hjver Himp Hfn HV s Hr (U64 - 3)
-              ltac:(lia) ltac:(lia) ltac:(lia)
+  destruct (commit_new_block P HP pay fetch He (U64 - 3) s V n j mv ltac:(lia) Hjv Hmv Hjver Himp Hfn HV Hr
+              ltac:(lia) ltac:(lia)
               (fun m Hm => ltac:(specialize (Hs m Hm); lia))
               (fun k0 Hk0 => ltac:(destruct (Hw k0 Hk0) as (A & B & C & D); unfold height in D; repeat split; auto; lia))
               Hin Huq k Hk) as (H1 & H2 & H3).
   split; [exact H1|]. split; [exact H2|]. rewrite Hh. unfold height. exact H3.
+Qed.
+
+(* (d) for a forced re-proposal: the leader's single proposal for view V carries no payload and
+   its justification implies the re-proposal of block (n, h); some honest node still has the
+   payload of that block cached; the block-fetch oracle answers at the sync point of the second
+   round (H-FETCH).  Then within two rounds every honest node has stored block n -- the nodes with
+   the payload when they form the commit certificate, the others by fetching it in the same round
+   -- and entered the next view. *)
+Definition reproposal_on_network (P : params) (s : gstate) (V n h : Z) : Prop :=
+  exists j mv,
+    justification_view (E := unit) true j = Ok mv /\ vnum mv = V /\
+    justification_verify (p_g P) (p_e P) (p_C P) j = Ok tt /\
+    get_implied_block (E := unit) true (p_C P) (p_first P) j = Ok (n, Some h) /\
+    In {| m_key := cleader (pcfg P 0) V; m_sig_ok := true; m_msg := MProposal None j |} (g_soup s) /\
+    (forall m p' j' mv', In m (g_soup s) -> m_msg m = MProposal p' j' -> m_key m = cleader (pcfg P 0) V ->
+       m_sig_ok m = true -> justification_view (E := unit) true j' = Ok mv' -> vnum mv' = V ->
+       justification_verify (p_g P) (p_e P) (p_C P) j' = Ok tt ->
+       p' = None /\ j' = j).
+
+Definition C06_view_recommits : Prop :=
+  forall P pay fetch, params_ok P -> env_ok P pay -> forall s V n h, preach P s -> headroom P s 4 ->
+  0 < V -> waiting P s V n -> reproposal_on_network P s V n h ->
+  (exists k0, honestb P k0 = true /\ cache_has (r_cache (n_live (g_node s k0))) n h = true) ->
+  fetch_ok_at P fetch (sync_point P pay (sync_round P pay fetch s)) ->
+  forall k, honestb P k = true ->
+    up (sync_rounds P pay fetch 2 s) k /\ hview (sync_rounds P pay fetch 2 s) k = V + 1 /\
+    height s k < height (sync_rounds P pay fetch 2 s) k.
+
+Theorem view_recommits_holds : C06_view_recommits.
+Proof.
+  intros P pay fetch HP He s V n h Hr (Hd & Hs) HV Hw (j & mv & Hjv & Hmv & Hjver & Himp & Hin & Huq) Hk0 Hfo k Hk.
+  destruct (Hw k Hk) as (Hu & Hv & _ & Hh).
+  assert (Hf : 0 <= p_first P) by apply He.
+  assert (Hfn : p_first P <= n).
+  { destruct (preach_NC P s Hf Hr k) as [(_ & A2 & _) _].
+    destruct (ProtocolRefinesInv.preach_inv P HP s Hr) as [a G].
+    pose proof (ProtocolRefinesInv.ni_first _ _ _ _ _ (ProtocolRefinesInv.gi_node _ _ _ G k Hk)) as E.
+    unfold height in Hh. rewrite E in A2. lia. }
+  assert (HdV : p_first P + V + 4 < U64).
+  { specialize (Hd k Hk). rewrite (up_dview P HP s k Hr Hk Hu), Hv in Hd. exact Hd. }
+  assert (Hkind : (Some h = None /\ @None Z = Some h /\ p_pok P n h = true /\ p_psize P h <= p_maxpay P) \/
+                  (Some h = Some h /\ @None Z = None)) by (right; auto).
+  destruct (commit_two_rounds_post P HP pay fetch He V n j mv None h (Some h) Hjv Hmv Hjver Himp Hkind Hfn HV s Hr (U64 - 3)
+              ltac:(lia) ltac:(lia) ltac:(lia)
+              (fun m Hm => ltac:(specialize (Hs m Hm); lia))
+              (fun k0 Hk0' => ltac:(destruct (Hw k0 Hk0') as (A & B & C & D); unfold height in D; repeat split; auto; lia))
+              Hin Huq (or_intror Hk0) (fun _ => Hfo)) as (_ & _ & H3 & _).
+  destruct (H3 k Hk) as (A & B & _ & D). split; [exact A|]. split; [exact B|]. rewrite Hh. unfold height. lia.
 Qed.
 
 (* consecutive views with honest leaders, starting from such a view: one block every two
@@ -585,6 +633,116 @@ Proof.
   split.
   - apply (lockstep_of_checks ex_P6 ex_pay ex_s6 1 ex_P6_ok Hw Hnp HL); vm_compute; reflexivity.
   - exists 1%nat. split; [lia|]. vm_compute. reflexivity.
+Qed.
+
+(* a re-proposal scenario: six validators (validator 2 Byzantine).  After three rounds view 2's
+   honest leader has proposed block 0; validators 1, 3, 4 vote, everybody times out; the next
+   round assembles the timeout certificate, whose three reporters of the vote force view 3's
+   leader to re-propose block 0 without payload.  The hypotheses of the re-proposal commit
+   theorem hold there: validators 5 and 6 do not have the payload and fetch the block. *)
+Definition is_prop_v (V : Z) (m : sgmsg) : bool :=
+  match m_msg m with
+  | MProposal _ j => match @justification_view unit true j with Ok mv => vnum mv =? V | _ => false end
+  | _ => false
+  end.
+Definition rponb (P : params) (s : gstate) (V n h : Z) : bool :=
+  match filter (is_prop_v V) (g_soup s) with
+  | [m] =>
+      match m_msg m with
+      | MProposal None j =>
+          (m_key m =? cleader (pcfg P 0) V) && m_sig_ok m &&
+          is_ok (justification_verify (p_g P) (p_e P) (p_C P) j) &&
+          match @get_implied_block unit true (p_C P) (p_first P) j with
+          | Ok (n', Some h') => (n' =? n) && (h' =? h)
+          | _ => false
+          end
+      | _ => false
+      end
+  | _ => false
+  end.
+
+Lemma rponb_spec P s V n h : rponb P s V n h = true -> reproposal_on_network P s V n h.
+Proof.
+  unfold rponb. destruct (filter (is_prop_v V) (g_soup s)) as [|m [|m2 l]] eqn:Ef; try discriminate.
+  assert (Hm : In m (filter (is_prop_v V) (g_soup s))) by (rewrite Ef; left; reflexivity).
+  apply filter_In in Hm. destruct Hm as [Hmin Hmv].
+  destruct m as [mk ms mm]. cbn [m_msg m_key m_sig_ok] in *. unfold is_prop_v in Hmv. cbn [m_msg] in Hmv.
+  destruct mm as [[p|] j|c|t|j]; try discriminate.
+  intros H.
+  apply andb_true_iff in H. destruct H as [H H4].
+  apply andb_true_iff in H. destruct H as [H H3].
+  apply andb_true_iff in H. destruct H as [H1 H2].
+  apply Z.eqb_eq in H1. subst mk. subst ms.
+  destruct (@justification_view unit true j) as [mv| |] eqn:Ejv; try discriminate. apply Z.eqb_eq in Hmv.
+  destruct (justification_verify (p_g P) (p_e P) (p_C P) j) as [[]| |] eqn:Ever; try discriminate.
+  destruct (@get_implied_block unit true (p_C P) (p_first P) j) as [[n' [h'|]]| |] eqn:Eimp; try discriminate.
+  apply andb_true_iff in H4. destruct H4 as [H5 H6]. apply Z.eqb_eq in H5, H6. subst n' h'.
+  exists j, mv. split; [exact Ejv|]. split; [exact Hmv|]. split; [exact Ever|]. split; [exact Eimp|]. split; [exact Hmin|].
+  intros m p' j' mv' Hin Em _ _ Ejv' EV' _.
+  assert (Hp : is_prop_v V m = true) by (unfold is_prop_v; rewrite Em, Ejv'; apply Z.eqb_eq; exact EV').
+  pose proof (proj2 (filter_In (is_prop_v V) m (g_soup s)) (conj Hin Hp)) as Hm. rewrite Ef in Hm.
+  destruct Hm as [<-|[]]. cbn [m_msg] in Em. inversion Em. auto.
+Qed.
+
+Definition ex_ops_repropose : list xop :=
+  [XDeliver 1 25; XDeliver 3 25; XDeliver 4 25; XTimer 1; XTimer 3; XTimer 4; XTimer 5; XTimer 6].
+
+Definition recommit_chk (s : gstate) : bool :=
+  forallb (fun k => (p_first ex_P6 + dview s k + 4 <? U64) && n_alive (g_node s k) && (hview s k =? 3) &&
+                    match r_phase (n_live (g_node s k)) with Prepare => true | _ => false end &&
+                    (height s k =? 0)) [1; 3; 4; 5; 6] &&
+  forallb (fun m => msg_view (m_msg m) + 4 <? U64) (g_soup s) &&
+  rponb ex_P6 s 3 0 100 &&
+  cache_has (r_cache (n_live (g_node s 1))) 0 100 &&
+  negb (cache_has (r_cache (n_live (g_node s 5))) 0 100) &&
+  fetch_ok_atb ex_P6 (find_cert ex_P6) (sync_point ex_P6 ex_pay (sync_round ex_P6 ex_pay (find_cert ex_P6) s)).
+
+Lemma ex_recommit_obs :
+  option_map (fun s0 => recommit_chk (sync_round ex_P6 ex_pay (find_cert ex_P6) s0))
+    (xrun ex_P6 (sync_rounds ex_P6 ex_pay (find_cert ex_P6) 3 (ginit ex_P6)) ex_ops_repropose) = Some true.
+Proof. vm_compute. reflexivity. Qed.
+
+Lemma xrun_some_reach_from {A} P s0 ops (f : gstate -> A) v : preach P s0 ->
+  option_map f (xrun P s0 ops) = Some v -> exists s, preach P s /\ f s = v.
+Proof.
+  intros Hr0. destruct (xrun P s0 ops) as [s|] eqn:E; cbn [option_map]; [|discriminate].
+  intros H. injection H as H. exists s. split; [|exact H]. eapply xrun_reach; [exact Hr0|exact E].
+Qed.
+
+Lemma ex_recommit_s : exists s, preach ex_P6 s /\ recommit_chk s = true.
+Proof.
+  destruct (xrun_some_reach_from ex_P6 _ _ _ true (sync_rounds_reach ex_P6 ex_pay (find_cert ex_P6) 3 _ (PReachInit ex_P6))
+              ex_recommit_obs) as (s0 & Hr0 & Hc).
+  exists (sync_round ex_P6 ex_pay (find_cert ex_P6) s0). split; [apply sync_round_reach; exact Hr0|exact Hc].
+Qed.
+
+Lemma ex_recommit_hyps : exists s, preach ex_P6 s /\ headroom ex_P6 s 4 /\ waiting ex_P6 s 3 0 /\
+  reproposal_on_network ex_P6 s 3 0 100 /\
+  (exists k0, honestb ex_P6 k0 = true /\ cache_has (r_cache (n_live (g_node s k0))) 0 100 = true) /\
+  (exists k1, honestb ex_P6 k1 = true /\ cache_has (r_cache (n_live (g_node s k1))) 0 100 = false) /\
+  fetch_ok_at ex_P6 (find_cert ex_P6) (sync_point ex_P6 ex_pay (sync_round ex_P6 ex_pay (find_cert ex_P6) s)).
+Proof.
+  destruct ex_recommit_s as (s & Hr & Hc). unfold recommit_chk in Hc.
+  apply andb_true_iff in Hc. destruct Hc as [Hc C6].
+  apply andb_true_iff in Hc. destruct Hc as [Hc C5].
+  apply andb_true_iff in Hc. destruct Hc as [Hc C4].
+  apply andb_true_iff in Hc. destruct Hc as [Hc C3].
+  apply andb_true_iff in Hc. destruct Hc as [C1 C2].
+  assert (Hk : forall k, honestb ex_P6 k = true ->
+            p_first ex_P6 + dview s k + 4 < U64 /\ up s k /\ hview s k = 3 /\
+            r_phase (n_live (g_node s k)) = Prepare /\ height s k = 0).
+  { intros k Hk. apply ex_P6_hon in Hk. pose proof (Forall_forallb _ _ C1 k Hk) as Hb. cbv beta in Hb.
+    apply andb_true_iff in Hb. destruct Hb as [Hb B5]. apply andb_true_iff in Hb. destruct Hb as [Hb B4].
+    apply andb_true_iff in Hb. destruct Hb as [Hb B3]. apply andb_true_iff in Hb. destruct Hb as [B1 B2].
+    split; [apply Z.ltb_lt; exact B1|]. split; [exact B2|]. split; [apply Z.eqb_eq; exact B3|].
+    split; [destruct (r_phase (n_live (g_node s k))); try discriminate; reflexivity|apply Z.eqb_eq; exact B5]. }
+  exists s. split; [exact Hr|]. split; [|split; [|split; [|split; [|split]]]].
+  - split; [intros k Hk0; apply (Hk k Hk0)|]. intros m Hin. apply Z.ltb_lt. exact (Forall_forallb _ _ C2 m Hin).
+  - intros k Hk0. destruct (Hk k Hk0) as (_ & A & B & C & D). auto.
+  - apply rponb_spec. exact C3.
+  - exists 1. split; [reflexivity|exact C4].
+  - exists 5. split; [reflexivity|]. apply negb_true_iff. exact C5.
+  - apply fetch_ok_atb_spec. exact C6.
 Qed.
 
 (* ================================================================== *)
